@@ -95,9 +95,10 @@ func corr(o Opts) {
 	memit := func(c *MatCase) {
 		c.exec()
 		site, _ := c.site()
-		key := c.Call + "|" + c.Pat + "|" + fmt.Sprint(c.Hdr, c.VR, c.VA, c.VB)
+		key := c.Call + "|" + c.typName() + "|" + c.Pat + "|" + fmt.Sprint(c.Hdr, c.VR, c.VA, c.VB)
 		mw.Add(c.Coq(), corpusLine{Mat: c}, key, c.Pat != "none" && c.Pat != "dims")
 		mw.Count("call:" + c.Call)
+		mw.Count("type:" + c.typName())
 		mw.Count("pattern:" + c.Call + ":" + c.Pat)
 		mw.Count("site:" + site)
 		if c.Panic {
@@ -167,10 +168,13 @@ func corr(o Opts) {
 			pat := matPatterns[k%len(matPatterns)]
 			c, ok := genMdotM(mr.Split(), pat, mr.Intn(3) == 0, mr.Intn(3) == 0)
 			if ok {
+				c.Typ = pickTyp(mr, c.Real)
 				memit(c)
 			}
 		case 1:
-			memit(genEw(mr.Split(), mr.Intn(3) == 0))
+			c := genEw(mr.Split(), mr.Intn(3) == 0)
+			c.Typ = pickTyp(mr, c.Real)
+			memit(c)
 		default:
 			memit(genVec(mr.Split()))
 		}
@@ -287,8 +291,10 @@ func hunt(o Opts) {
 			if !ok {
 				continue
 			}
+			c.Typ = pickTyp(mr, c.Real)
 		case 1:
 			c = genEw(mr.Split(), mr.Intn(3) == 0)
+			c.Typ = pickTyp(mr, c.Real)
 		default:
 			c = genVec(mr.Split())
 		}
@@ -310,11 +316,29 @@ func hunt(o Opts) {
 			out.Aliased++
 		}
 	}
+	jetHunt(o.Seed, o.N, &out, add)
 	out.Found = len(out.Hits) > 0
 	b, _ := json.MarshalIndent(out, "", " ")
 	if err := os.WriteFile(filepath.Join(o.Out, "hunt.json"), b, 0644); err != nil {
 		Die("%v", err)
 	}
+}
+
+// pickTyp: the element type of the matrices of a case (Float64 / Real64 when empty)
+func pickTyp(r *Rng, real bool) string {
+	if real {
+		return []string{"", "", "real32"}[r.Intn(3)]
+	}
+	return []string{"", "", "int", "int32", "float32"}[r.Intn(5)]
+}
+func (c *MatCase) typName() string {
+	if c.Typ != "" {
+		return c.Typ
+	}
+	if c.Real {
+		return "real64"
+	}
+	return "float64"
 }
 
 // tmpVsSeparate: a call whose scratch argument is an operand against the same call with a separate scratch.
@@ -413,6 +437,12 @@ func replay(o Opts) {
 		if rp.Hunt.Mat != nil {
 			if h := matOracle(rp.Hunt.Mat); h != nil {
 				still, fail = true, h.Failure
+			}
+		}
+		if rp.Hunt.Jet != nil {
+			kind, pat, conc, n, A, B, _ := jetCase(rp.Hunt.Jet.Seed, rp.Hunt.Jet.Index)
+			if ok, why, _ := jetRun(kind, pat, conc, n, A, B); !ok {
+				still, fail = true, why
 			}
 		}
 		res["hunt_still_fails"] = still
